@@ -308,5 +308,44 @@ pub fn probes(_args: &[String]) {
         let _ = tx.send(match r { Ok(Ok(())) => "ok".to_owned(), Ok(Err(e)) => format!("error: {e}"), Err(p) => format!("panic: {p}") });
     });
     let res = rx.recv_timeout(std::time::Duration::from_secs(20));
-    out.put(&json!({"probe": "power-levels-events-that-name-each-other-as-auth-events", "returned": res.is_ok(), "result": res.unwrap_or_else(|_| "no result after 20 s".into())}));
+    out.put(&json!({"probe": "power-levels-events-that-name-each-other-as-auth-events", "returned": res.is_ok(), "result": res.unwrap_or_else(|_| "no result after 20 s".into()), "distinct": 1}));
+
+    // an event that lists two power-levels events among its auth events (the rule that rejects duplicate entries is not
+    // applied by auth_check): which of them gives the sender's power for the ordering must not depend on the run
+    let member = |id: &str, u: &str, auth: Vec<&str>, ts: u64| ev(id, "m.room.member", u, u, auth, ts, json!({"membership": "join", "jauth": "", "tpi": {"present": false}}));
+    let pls = |users: Value| json!({"pl": {"users": users, "events": {}, "notifications": {}, "userkeysvalid": true}});
+    let all = ["$create", "$ima", "$pl0", "$ijr", "$imb", "$imc", "$pla"];
+    let base_state = |jr: &str| json!([["m.room.create", "", "$create"], ["m.room.member", "@c:s1", "$ima"], ["m.room.member", "@a:s1", "$imb"], ["m.room.member", "@b:s1", "$imc"],
+                                       ["m.room.power_levels", "", "$pla"], ["m.room.join_rules", "", jr]]);
+    let case2 = json!({
+        "v": 7,
+        "events": [
+            {"id": "$create", "type": "m.room.create", "sender": "@c:s1", "haskey": true, "key": "", "prev": [], "auth": [], "roomserver": "s1", "idserver": "s1", "ts": 1,
+             "c": {"hascreator": true, "creator": "@c:s1", "federate": true}},
+            member("$ima", "@c:s1", vec!["$create"], 2),
+            ev("$pl0", "m.room.power_levels", "@c:s1", "", vec!["$create", "$ima"], 3, pls(json!({"@c:s1": 100, "@b:s1": 50}))),
+            ev("$ijr", "m.room.join_rules", "@c:s1", "", vec!["$create", "$ima", "$pl0"], 4, json!({"join_rule": "public"})),
+            member("$imb", "@a:s1", vec!["$create", "$ijr", "$pl0"], 5),
+            member("$imc", "@b:s1", vec!["$create", "$ijr", "$pl0"], 6),
+            ev("$pla", "m.room.power_levels", "@c:s1", "", vec!["$create", "$ima", "$pl0"], 7, pls(json!({"@c:s1": 100, "@a:s1": 100, "@b:s1": 50}))),
+            ev("$x", "m.room.join_rules", "@a:s1", "", vec!["$pla", "$pl0", "$create", "$imb"], 8, json!({"join_rule": "invite"})),
+            ev("$y", "m.room.join_rules", "@b:s1", "", vec!["$create", "$imc", "$pla"], 9, json!({"join_rule": "knock"})),
+        ],
+        "sets": [base_state("$x"), base_state("$y")],
+        "chains": [all, all],
+    });
+    let b = build(&case2);
+    let rules = auth_rules(7);
+    let mut seen: std::collections::BTreeSet<String> = Default::default();
+    for k in 0..300 {
+        let sets: Vec<_> = if k % 2 == 0 { b.sets.clone() } else { b.sets.iter().rev().cloned().collect() };
+        let r = guard(|| resolve(&rules, &sets, b.chains.clone(), |id| b.pdus.get(id).cloned()));
+        seen.insert(match r {
+            Ok(Ok(m)) => serde_json::to_string(&state_list(&m, &b.back)).unwrap(),
+            Ok(Err(e)) => format!("error: {e}"),
+            Err(p) => format!("panic: {p}"),
+        });
+    }
+    out.put(&json!({"probe": "two-power-levels-events-among-the-auth-events-of-one-event", "returned": true, "distinct": seen.len(),
+                    "result": seen.iter().next().cloned().unwrap_or_default(), "results": seen.iter().collect::<Vec<_>>()}));
 }
